@@ -7,6 +7,7 @@ package filesystem
 import (
 	"archive/zip"
 	"bytes"
+	"compress/flate"
 	"errors"
 	"hash/crc32"
 	"io"
@@ -321,6 +322,7 @@ type vEntry struct {
 	name     string
 	content  []byte
 	declared int64 // declared uncompressed size; -1: honest
+	deflate  bool  // stored deflated (real compress/flate writer) instead of as is
 }
 
 func vBuildZip(entries []vEntry) []byte {
@@ -337,7 +339,19 @@ func vBuildZip(entries []vEntry) []byte {
 			continue
 		}
 		h.CRC32 = crc32.ChecksumIEEE(e.content)
-		h.CompressedSize64 = uint64(len(e.content))
+		stored := e.content
+		if e.deflate {
+			var cb bytes.Buffer
+			fw, err := flate.NewWriter(&cb, flate.BestCompression)
+			if err != nil {
+				panic(err)
+			}
+			_, _ = fw.Write(e.content)
+			_ = fw.Close()
+			stored = cb.Bytes()
+			h.Method = zip.Deflate
+		}
+		h.CompressedSize64 = uint64(len(stored))
 		h.UncompressedSize64 = uint64(len(e.content))
 		if e.declared >= 0 {
 			h.UncompressedSize64 = uint64(e.declared)
@@ -346,7 +360,7 @@ func vBuildZip(entries []vEntry) []byte {
 		if err != nil {
 			panic(err)
 		}
-		if _, err := fw.Write(e.content); err != nil {
+		if _, err := fw.Write(stored); err != nil {
 			panic(err)
 		}
 	}
